@@ -26,7 +26,7 @@ CONSTANTS Port,              \* 53 | 443
 
 WTotal == (IF Port = 53 THEN DnsT ELSE 0) + 2 * SniffT + Slack
 
-ClientKinds == {"tls5", "tlsrest", "tlsfull", "http", "httphalf", "bin1", "bin", "dnsjunk", "big"}
+ClientKinds == {"tls5", "tlsrest", "tlsfull", "http", "httphalf", "bin1", "bin", "dnsjunk", "dnsresp", "big"}   \* dnsresp: a well-formed length-prefixed DNS *response* (not a query: to be relayed like any other bytes)
 ServerKinds == {"s-small", "s-big"}
 Waits == {10, SniffT + 50, DnsT + 1000, Grace + 1000}
 
